@@ -655,7 +655,7 @@ pub fn replay_c13(case: &Value) -> i32 {
 // =======================================================================================
 // C14
 
-fn c14_grammar_position(rep: &Reporter, p: &Pos, full: bool, n_strings: &AtomicU64, verdicts: &[AtomicU64; 3], nonstandard: &AtomicU64) {
+fn c14_grammar_position(rep: &Reporter, p: &Pos, full: bool, n_strings: &AtomicU64, verdicts: &[AtomicU64; 3], nonstandard: &AtomicU64, only: Option<&str>) {
     let fen = p.to_fen();
     let mut b = match board_from_pos(p) {
         Ok(b) => b,
@@ -670,8 +670,13 @@ fn c14_grammar_position(rep: &Reporter, p: &Pos, full: bool, n_strings: &AtomicU
     let suffixes: &[Option<char>] = if full { &[None, Some('+'), Some('#')] } else { &[None] };
     let mut n = 0u64;
     let mut judge = |f: SanFields, b: &mut Bitboard| {
-        n += 1;
         let text = f.text();
+        if let Some(o) = only {
+            if text != o {
+                return; // replay mode: exactly the recorded string
+            }
+        }
+        n += 1;
         // The statement speaks about standard SAN strings. Pawn moves written with a source rank,
         // with a source file but no capture mark, or with a capture mark but no source file are
         // not SAN at all: for those only "no panic, board untouched" is demanded.
@@ -826,7 +831,7 @@ pub fn run_c14(tier: Tier) -> i32 {
     let n_strings = AtomicU64::new(0);
     let verdicts: [AtomicU64; 3] = Default::default();
     let nonstandard = AtomicU64::new(0);
-    par_map(&gp, |p| c14_grammar_position(&rep, p, tier == Tier::Thorough, &n_strings, &verdicts, &nonstandard));
+    par_map(&gp, |p| c14_grammar_position(&rep, p, tier == Tier::Thorough, &n_strings, &verdicts, &nonstandard, None));
     fams.push(json!({
         "family": "SAN grammar restricted to the board ([KQRBN]? file? rank? x? target (=[QRBN])? [+#]? and O-O/O-O-O)",
         "positions": gp.len(),
@@ -873,7 +878,7 @@ pub fn replay_c14(case: &Value) -> i32 {
             let n = AtomicU64::new(0);
             let v: [AtomicU64; 3] = Default::default();
             let ns = AtomicU64::new(0);
-            c14_grammar_position(&rep, &p, true, &n, &v, &ns);
+            c14_grammar_position(&rep, &p, true, &n, &v, &ns, case["input"].as_str());
         }
         _ => return 2,
     }
